@@ -836,3 +836,54 @@ Proof.
   destruct (existsb (Z.eqb (m_pgn m)) (c_dump_pgns c)); simpl; [intros H; inversion H; reflexivity|].
   unfold py_lower. destruct (forallb _ (m_id m)); simpl; intros H; inversion H; reflexivity.
 Qed.
+
+(* ---- the statement of C15 on values, and why the unguarded form is false (F-nan-json) *)
+Definition same_upto_rendering (v v' : value) : Prop :=
+  match v with
+  | VBytes b => v' = VText (hex_bytes b)
+  | VDate d => exists s, iso_date d = Ok s /\ v' = VText s
+  | VTime t => exists s, iso_time t = Ok s /\ v' = VText s
+  | _ => v' = v
+  end.
+Lemma render_same v v' : value_finite v = true -> render v = Ok v' -> same_upto_rendering v v'.
+Proof.
+  destruct v; simpl; intros Hf H; try (inversion H; reflexivity).
+  - rewrite Hf in H. inversion H; reflexivity.
+  - destruct (iso_date days) as [s| |]; simpl in H; inversion H. eauto.
+  - destruct (iso_time secs) as [s| |]; simpl in H; inversion H. eauto.
+Qed.
+
+Definition field_same (f f' : field) : Prop :=
+  f_id f' = f_id f /\ same_upto_rendering (f_value f) (f_value f') /\ same_upto_rendering (f_raw f) (f_raw f').
+Definition fields_statement (guard : msg -> bool) : Prop :=
+  forall m t, guard m = true -> msg_wf m = true -> to_tree m = Ok t ->
+  exists m', of_tree t = Ok m' /\
+    m_pgn m' = m_pgn m /\ m_id m' = m_id m /\ m_src m' = m_src m /\ m_dst m' = m_dst m /\ m_prio m' = m_prio m /\
+    Forall2 field_same (m_fields m) (m_fields m').
+
+Theorem fields_guarded : fields_statement json_ok.
+Proof.
+  intros m t G W H. destruct (to_of_tree m t W H) as [m' [Ho [E1 [E2 [_ [E3 [E4 [E5 [_ [_ [_ F]]]]]]]]]]].
+  exists m'. repeat split; try assumption.
+  unfold json_ok in G. revert G F. generalize (m_fields m) (m_fields m'). intros l l' G F.
+  induction F as [|f f' l l' Hf _ IH]; [constructor|]. simpl in G. apply andb_true_iff in G. destruct G as [Gf Gl].
+  apply andb_true_iff in Gf. destruct Gf as [Gv Gr]. constructor; [|apply IH; exact Gl].
+  destruct Hf as [Hid [_ [_ [_ [Hv [Hr _]]]]]]. unfold field_same. repeat split.
+  - exact Hid. - apply render_same; assumption. - apply render_same; assumption.
+Qed.
+
+Definition nan_msg : msg :=
+  mkMsg 129045 [117] 1 TtlNone [mkField [114] None None None (VFloat nan) (VFloat nan) PqNone (TyEnum 2) false]
+        1 255 2 1 IsoNone None RawNone.
+Theorem fields_unguarded_false : ~ fields_statement (fun _ => true).
+Proof.
+  intros H. destruct (H nan_msg (JObj [(k_PGN, JInt 129045); (k_id, JStr (bytes_str [117])); (k_description, JStr 1);
+      (k_ttl, JNull); (k_fields, JList [JObj [(k_id, JStr (bytes_str [114])); (k_name, JNull); (k_description, JNull);
+      (k_unit, JNull); (k_value, JNull); (k_raw_value, JNull); (k_pq, JNull); (k_type, JList [JInt 2]); (k_pk, JBool false)]]);
+      (k_source, JInt 1); (k_destination, JInt 255); (k_priority, JInt 2); (k_timestamp, JStr 1);
+      (k_source_iso_name, JNull); (k_hash, JNull); (k_raw_can_data, JNull)]) eq_refl eq_refl)
+    as [m' [Ho [_ [_ [_ [_ [_ F]]]]]]].
+  { vm_compute. reflexivity. }
+  vm_compute in Ho. inversion Ho; subst; clear Ho. simpl in F. inversion F as [|? ? ? ? Hf _]; subst.
+  destruct Hf as [_ [Hv _]]. simpl in Hv. discriminate.
+Qed.
